@@ -95,7 +95,7 @@ def correspondence(ctx, idx, builtins):
     goals = []
     meta = {}
     for o in idx:
-        if o["id"] not in builtins:
+        if o["id"] not in builtins or not all(is_finite_hex(x) for x in o["n"]):
             continue
         W, K = coq_hex(o["w"]), coq_hex(o["tk"])
         for ax in range(3):
@@ -116,7 +116,7 @@ def correspondence(ctx, idx, builtins):
         kind, o, ax = meta[cid]
         w, tc, n = f64_of_hex(o["w"]), f64_of_hex(o["tc"]), f64_of_hex(o["n"][ax])
         rep = {"crystal": o["id"], "axis": AXES[ax], "wavelength_m": w, "temperature_c": tc, "rust_index": n, "case": cid,
-               "call": f"CrystalType::{o['id']}.get_indices({w!r} * M, from_celsius_to_kelvin({tc!r}))"}
+               "call": ("expression crystal with the formulas of " if o.get("expr") else "CrystalType::") + f"{o['id']}.get_indices({w!r} * M, from_celsius_to_kelvin({tc!r}))"}
         nbad += 1
         if kind == "pub":
             ctx.violation("S4", f"{o['id']} {AXES[ax]}: get_indices returns {n!r} at {w*1e9:.4f} nm, {tc} C, which differs from the published Sellmeier/thermo-optic value by more than 1e-12",
@@ -126,6 +126,36 @@ def correspondence(ctx, idx, builtins):
             ctx.violation("S4", f"{o['id']} {AXES[ax]}: translated model and implementation disagree at {w*1e9:.4f} nm, {tc} C (rust {n!r})",
                           {"kind": "model_mismatch", "crystal": o["id"], "axis": AXES[ax]}, rep, found_input=False)
     return nbad
+
+
+def expr_specs():
+    """meval expression strings for the translated formulas (variables: l in um, T = temperature - 293.15 K), read back
+    from coq/Gen/Crystals.v.  KTP is skipped (its n_y is piecewise, which the expression language cannot state)."""
+    try:
+        src = open(os.path.join(COQ, "Gen", "Crystals.v")).read()
+    except OSError:
+        return []
+    out = []
+    for m in re.finditer(r"Definition indices_(\w+) \(wavelength temperature : R\) : R \* R \* R :=\n  \((.*?),\n   (.*?),\n   (.*?)\)\.\n", src, re.S):
+        cid, comps = m.group(1), [m.group(2), m.group(3), m.group(4)]
+        if any("Rlt_dec" in c or "if " in c for c in comps):
+            continue
+        def conv(c):
+            c = c.replace("(wavelength / (1e-6 * 1))", "l")
+            c = c.replace("((temperature - (20 + 273.15)) / 1)", "T")
+            c = c.replace("(temperature / 1)", "(T + 293.15)")
+            c = c.replace("sqrt (", "sqrt(")
+            c = c.replace("(- ", "(0 - ")
+            return " ".join(c.split())
+        comps = [conv(c) for c in comps]
+        if any("wavelength" in c or "temperature" in c for c in comps):
+            continue
+        if comps[0] == comps[1]:
+            js = json.dumps({"no": comps[0], "ne": comps[2]})
+        else:
+            js = json.dumps({"nx": comps[0], "ny": comps[1], "nz": comps[2]})
+        out.append(f"expr {cid} {js}")
+    return out
 
 
 BUILTINS = ["BBO_1", "KTP", "BiBO_1", "LiNbO3_1", "LiNb_MgO", "KDP_1", "AgGaSe2_1", "AgGaSe2_2", "LiIO3_2", "LiIO3_1", "AgGaS2_1"]
@@ -141,8 +171,19 @@ def run(ctx):
     if not msgs:
         proved = prove(ctx, "C01", extra_targets=["Proofs/CaseTac.vo"])
     n = 10 if ctx.tier == "quick" else 80
-    obs = run_harness(ctx, binp, ["c01", ctx.seed, n])
+    specs = expr_specs()
+    obs = run_harness(ctx, binp, ["c01", ctx.seed, n], stdin="\n".join(specs) + "\n")
     metas, idx = oracle(ctx, obs)
+    # user expression crystals built from the same (translated) formulas go through the same comparisons
+    eidx = [dict(o, kind="idx", expr=True) for o in obs if o["kind"] == "expr_idx"]
+    ctx.count("expression_crystals", len({o["id"] for o in eidx}))
+    for o in obs:
+        if o["kind"] in ("expr_err", "expr_panic"):
+            ctx.violation("S5", f"expression crystal built from the formulas of {o['id']} is rejected or panics: {o.get('err') or o.get('msg')}",
+                          {"kind": "expr", "crystal": o["id"]}, o)
+    for o in eidx:
+        ctx.seen(("expr", o["id"], o["w"], o["tk"]))
+    idx = idx + eidx
     for o in idx[:3]:
         ctx.sample({"crystal": o["id"], "wavelength_m": f64_of_hex(o["w"]), "temperature_c": f64_of_hex(o["tc"]),
                     "indices": [f64_of_hex(x) for x in o["n"]]})
@@ -171,6 +212,7 @@ def run(ctx):
         "finite": "proved as definedness of every division/sqrt (real model); float finiteness measured",
         "1 < n < 4": "proved", "decreasing in wavelength": "proved", "optical class": "proved",
         "window inside 100 nm - 20 um": "proved", "identifier round trip / uniqueness": "proved (finite enumeration)",
-        "temperature behaviour": "proved", "expression crystals": "not covered (meval evaluator is external)"}
+        "temperature behaviour": "proved",
+        "expression crystals": "validated: Expr crystals built from the translated formulas (all crystals but KTP) are compared with the model like built-ins"}
     return finish(ctx, assumptions=["binary64 evaluation error of get_indices is measured (<= 1e-12), not proved",
                                     "Spec/Published.v transcribes the published equations by hand"])
